@@ -11,5 +11,7 @@ vlib.build_impl()
 print("implementation built")
 out = vlib.coq_setup()
 print("coq development built")
-print(vlib.build_modelrun())
+for f in sorted(os.listdir("coq")):
+    if f.startswith("Extract_") and f.endswith(".v"):
+        print(vlib.build_modelrun(f[len("Extract_"):-2]))
 PY
